@@ -62,14 +62,15 @@ def gen_cases(tier, seed):
     # PVc: position and velocity fixes at two DIFFERENT stamps inside one IMU interval (0.3 and 0.7 of it), i.e. between
     # the IMU samples: two feedback corrections before the next increment is integrated
     mixes = ('P', 'PV', 'PVB', 'PVs', 'P0V', 'PVc')
-    classes = ('bias', 'sm', 'subset')      # subset: bias states on axes that are not a prefix of x, y, z
+    # subset: bias states on axes that are not a prefix of x, y, z; sm2: accelerometer scale factors and misalignments
+    classes = ('bias', 'sm', 'subset', 'sm2')
     steps = (0.5, 1.0)
     # 0.03 s: a covariance step below the 0.05 s IMU interval (one increment per step), on the fixed scenarios only
     for mo, mix, cl, st, wa in itertools.product(motions + (4,), mixes, classes, steps, (True, False)):
         if (mix == 'PVc') != (mo == 4):
             continue            # between-sample fixes only on the unaccelerated motion (and only they there)
         k = mo + mixes.index(mix) + classes.index(cl) + steps.index(st) + int(wa)
-        always = (mo == 4 and st == 0.5 and wa and cl != 'subset') or (mo == 0 and st == 0.5 and ((mix in ('PVs', 'P0V') and cl == 'bias') or (mix == 'PVB' and cl == 'sm'))) or \
+        always = (mo == 1 and mix == 'PVB' and cl == 'sm2' and st == 0.5) or (mo == 4 and st == 0.5 and wa and cl in ('bias', 'sm')) or (mo == 0 and st == 0.5 and ((mix in ('PVs', 'P0V') and cl == 'bias') or (mix == 'PVB' and cl == 'sm'))) or \
             (mix == 'PV' and st == 1.0 and ((mo == 3 and cl == 'bias') or (mo == 1 and cl == 'subset')))
         if tier == 'quick' and (k + seed) % 4 != 0 and not always:
             continue
@@ -164,6 +165,14 @@ def run_pair(case, s):
         ab = ab * np.array([1, 0, 1])
         imu = isn.apply_imu_parameters(imu_true, 'rate', isn.Parameters(bias=gb, transform=T), isn.Parameters(bias=ab))
         inc = strapdown.compute_increments_from_imu(imu, 'rate')
+    elif case['cls'] == 'sm2':
+        # scale factors and misalignments of the ACCELEROMETERS too (all nine terms): the below-diagonal ones couple the
+        # horizontal acceleration of the manoeuvres into the other axes and are observable within the 20 s
+        Ta = np.eye(3) + s * 2e-2 * np.random.RandomState(11).randn(3, 3)
+        imu = isn.apply_imu_parameters(imu_true, 'rate', isn.Parameters(bias=gb), isn.Parameters(bias=ab, transform=Ta))
+        inc = strapdown.compute_increments_from_imu(imu, 'rate')
+        gm = isn.EstimationModel(bias_sd=2e-3 * s, noise=1e-5 * s)
+        am = isn.EstimationModel(bias_sd=0.1 * s, noise=1e-3 * s, scale_misal_sd=2e-2 * s)
     else:
         gm = isn.EstimationModel(bias_sd=2e-3 * s, noise=1e-5 * s, scale_misal_sd=(1e-2 * s if sm else None))
         am = isn.EstimationModel(bias_sd=0.1 * s, noise=1e-3 * s)
